@@ -476,3 +476,36 @@ func verifSender(txnMode bool) {
 
 func VerifSenderTxn()    { verifSender(true) }
 func VerifSenderNonTxn() { verifSender(false) }
+
+// VerifC19SenderRetry (C19, sender level): the target refuses exactly one batch execution with a
+// MOVED redirection and is healthy afterwards. Either the sender reports an error (a restart), or
+// every write of the stream has been executed exactly once, in order - never a silent loss.
+func VerifC19SenderRetry() {
+	k := verifParam("K", 3)
+	bc := uint(verifRange("batchCount", 1, verifParam("BC", 2)))
+	st := verifGenStream(k, 0, false)
+	fake := verifNewFake()
+	fake.tagOf = verifTagOf
+	fake.moveBatch = verifRange("moveBatch", 1, 3)
+	ro := verifNewOutput(false, bc, fake)
+	run := verifDrive(ro, st, fake, false, 0)
+	// (whether the stop arrives before or after the retry is a race: not observed for the differential)
+	if run.err == nil {
+		verifCheckC19Complete(st, run)
+		verifCover(fake.batchRuns > fake.moveBatch, "c19.sender.retried")
+	}
+	verifReach("c19.sender.done")
+}
+
+// verifCheckC19Complete: what was executed is a gap-free prefix of the stream's writes, each once, in
+// order (a queued tail that a stop leaves unsent is a crash, judged by C02)
+func verifCheckC19Complete(st *verifStream, run *verifSendRun) {
+	got := 0
+	for _, r := range run.fake.log {
+		if r.cmd == "set" && r.tag >= 0 {
+			verifAssert(r.tag == got, "C19.sender.silent-loss-after-redirect")
+			got++
+		}
+	}
+	verifAssert(got <= st.nData, "C19.sender.invented-write")
+}
